@@ -216,7 +216,8 @@ def parts(tier):
             Part('master_streams', master_cases(),     quick=400, thorough=2500),
             Part('sched_forwarding', sched_cases(),    quick=300, thorough=2000),
             Part('worker_submission', worker_submit_cases(), quick=120, thorough=600),
-            Part('mpi_worker_streams', c20_mpi.cases(), quick=300, thorough=2500)]
+            Part('mpi_worker_streams', c20_mpi.cases(), quick=300, thorough=2500),
+            Part('mpi_alloc_vs_dealloc', enum=c20_mpi.alloc_race_cases)]
 
 
 def run_case(case):
@@ -233,6 +234,8 @@ def run_case(case):
         return c20_master.run_worker_submit(case)
     if kind == 'mpi_worker':
         return c20_mpi.run_case(case)
+    if kind == 'mpi_alloc_race':
+        return c20_mpi.run_alloc_race(case)
     res = CaseResult()
     return res
 
@@ -240,6 +243,9 @@ def run_case(case):
 def normalise(case):
     if isinstance(case, dict) and case.get('kind') == 'mpi_worker':
         return c20_mpi.normalise(case)
+    if isinstance(case, dict) and case.get('kind') == 'mpi_alloc_race':
+        return case if all(isinstance(case.get(k), int) for k in ('ranks', 'need', 'holders', 'k1', 'k2')) \
+            and 1 <= case['holders'] <= case['ranks'] <= 4 and 1 <= case['need'] <= case['ranks'] else None
     if not isinstance(case, dict) or case.get('kind') not in ('dispatch', 'worker', 'master', 'sched', 'worker_submit'):
         return None
     return case
